@@ -58,6 +58,21 @@ SYSTEM_VARIABLES: dict[str, VariableSchema] = {
 }
 
 
+def _to_bool(name: str, value: Any) -> bool:
+    """ON / OFF / TRUE / FALSE / 1 / 0 given as a string mean what they say"""
+    if isinstance(value, str):
+        word = value.lower()
+        if word in ("on", "true", "1"):
+            return True
+        if word in ("off", "false", "0"):
+            return False
+        raise MysqlError(
+            f"Variable '{name}' can't be set to the value of '{value}'",
+            code=ErrorCode.WRONG_VALUE_FOR_VAR,
+        )
+    return bool(value)
+
+
 class Variables(abc.ABC):
     """
     Abstract class for MySQL system variables.
@@ -87,7 +102,7 @@ class Variables(abc.ABC):
         if value is DEFAULT or value is None:
             self.values[name] = default
         else:
-            value = type_(value)
+            value = _to_bool(name, value) if type_ is bool else type_(value)
             validate = VALIDATORS.get(name)
             if validate:
                 validate(value)
